@@ -34,6 +34,10 @@ func c08Round2(c *Ctx) {
 	c12RuleInPlace = "R08h"
 	c12InPlace(c)
 	c12RuleInPlace = "R12e"
+	c.Rule("R08k", "the signature stream of an MSI is stored in the table it is later looked up and freed in: one mini-stream cutoff predicate at every site (shared with C18 R18e)", 5)
+	c18RuleCutoff = "R08k"
+	c18Cutoff(c, p.pkgFuncs("lib/comdoc"))
+	c18RuleCutoff = "R18e"
 	c.Rule("R08j", "the MSI upload tar names the signature streams exactly as the tar digest skips them: msiDecodeName passes their code units through", 1)
 	for _, f := range msiNamesPassControlChars(p, nil) {
 		c.Check(f.OK, "R08j", f.Key, f.Pos, "", f.Detail)
